@@ -1198,6 +1198,59 @@ impl VisitMut for LoopBodyInserter {
     }
 }
 
+/// inserts a marker immediately before / after the statement that is the k-th loop
+pub struct LoopStmtInserter {
+    pub target: usize,
+    pub after: bool,
+    pub marker: usize,
+    pub done: bool,
+}
+fn loop_ordinal(e: &Expr) -> Option<usize> {
+    let body = match e {
+        Expr::While(w) => &w.body,
+        Expr::ForLoop(f) => &f.body,
+        Expr::Loop(l) => &l.body,
+        _ => return None,
+    };
+    if let Some(Stmt::Macro(sm)) = body.stmts.first() {
+        if sm.mac.path.is_ident("__vx_loop") {
+            return sm.mac.tokens.to_string().trim().parse().ok();
+        }
+    }
+    None
+}
+impl VisitMut for LoopStmtInserter {
+    fn visit_block_mut(&mut self, b: &mut Block) {
+        if !self.done {
+            let mut at: Option<usize> = None;
+            for (i, s) in b.stmts.iter().enumerate() {
+                if let Stmt::Expr(e, _) = s {
+                    if loop_ordinal(e) == Some(self.target) {
+                        at = Some(i);
+                    }
+                }
+            }
+            if let Some(i) = at {
+                if self.after {
+                    if let Stmt::Expr(e, semi @ None) = &mut b.stmts[i] {
+                        if matches!(e, Expr::While(_) | Expr::ForLoop(_)) {
+                            *semi = Some(Default::default());
+                        } else {
+                            die("@insert loop <k> after: the loop is a tail `loop` expression (unsupported)");
+                        }
+                    }
+                }
+                let lit = proc_macro2::Literal::usize_unsuffixed(self.marker);
+                let m: Stmt = parse_quote!(__vx_insert!(#lit););
+                b.stmts.insert(if self.after { i + 1 } else { i }, m);
+                self.done = true;
+                return;
+            }
+        }
+        visit_mut::visit_block_mut(self, b);
+    }
+}
+
 pub fn quote_marker(k: usize) -> Stmt {
     let lit = proc_macro2::Literal::usize_unsuffixed(k);
     let ts = quote!(__vx_insert!(#lit););
